@@ -87,11 +87,21 @@ def run(tier, replay=None):
         vg = []
         rexe = compile_driver("drv_sweep.cpp", "rel")
         sub = [c for c in cases if (c["shells"][0]["l"] + c["shells"][1]["l"]) <= 3][:: (25 if tier == "quick" else 6)][: (12 if tier == "quick" else 80)]
+        # ECPs whose top angular momentum is the build's maximum (the last l_starts range), and every ECP used through a stored copy
+        top = [c for c in cases if max(p["l"] for p in c["ecps"][0]["p"]) == maxl and (c["shells"][0]["l"] + c["shells"][1]["l"]) <= 2 and c["extra"].get("order", 0) == 0][: (3 if tier == "quick" else 12)]
+        sub = [dict(c, extra=dict(c["extra"], via_copy=1)) for c in sub + top]
+        res.cov["valgrind_cases_with_top_L_ecp"] = len(top)
         cf = os.path.join(tmp, "vg.txt"); gen.write_cases(cf, sub)
         rc, out = sh(["valgrind", "--error-exitcode=79", "--track-origins=no", "-q", rexe, cf, os.path.join(tmp, "vgo.txt")], check=False, timeout=3000)
+        done_vg = [l.split()[1] for l in open(os.path.join(tmp, "vgo.txt"))] if os.path.exists(os.path.join(tmp, "vgo.txt")) else []
+        done_vg = [x for x in done_vg if x.startswith("w")]
         if rc == 79:
             vg = [l for l in out.splitlines() if "uninitialised" in l or "Invalid" in l][:6]
             bad.append((sub[0]["id"], "valgrind memcheck: " + " | ".join(vg)))
+        elif rc != 0:
+            # the run under valgrind died (signal / abort): the case it was working on is the replay
+            last_vg = done_vg[-1] if done_vg else sub[0]["id"]
+            bad.append((last_vg, "the driver died under valgrind memcheck (exit %d) in case %s: %s" % (rc, last_vg, " | ".join(out.splitlines()[-12:])[-900:])))
         res.cov["evaluations"] = len(cases); res.cov["distinct_nontrivial"] = len(set(c["id"].split("_", 1)[1] for c in cases))
         res.cov["completed_cases"] = ncomp; res.cov["values_checked_finite"] = nvals; res.cov["valgrind_cases"] = len(sub)
         res.cov["exhaustive"] = (tier == "thorough")
